@@ -259,6 +259,16 @@ def check(ctx, rep):
     rep.rule("R16k", "every description of an item from the file system is given the VFS the handler works on (no fall-back to the real file system)", floor=3)
     rep.rule("R16l", "member data and metadata are read under the name the index gives, never under the request path (links are resolved and names "
              "transcoded in the index)", floor=2)
+    rep.rule("R16m", "= R14a for the archive view: VFSZip and the ZIP handler keep nothing between requests in module- or class-level tables "
+             "(look-up results are valid only for the index they were taken from; the index cache file carries its own validity test)", floor=1)
+    from ..effects import Effects as _Eff16
+    from .c14 import shared_state_obligations as _sso16
+    zmod_ = prog.modules.get("pygopherd.handlers.ZIP")
+    zf_ = {m_ for c_ in (zmod_.classes.values() if zmod_ else []) for m_ in c_.methods.values()} | set(zmod_.functions.values() if zmod_ else [])
+    n0_ = len(rep.obligations)
+    _sso16(ctx, rep, "R16m", _Eff16(prog, ctx.resolver), zf_, sequential=True)
+    if len(rep.obligations) == n0_:
+        rep.ok("R16m", f"no module- or class-level state is written by the archive view [{len(zf_)} functions]", "pygopherd/handlers/ZIP.py", key="R16m|none")
     rep.rule("R16j", "entry, listing and document of an archive request are the inner handler's, on every path of the ZIP handler's methods", floor=4)
     rep.rule("R16d", "inner handler = HandlerMultiplexer.getHandler(..., vfs=<archive VFS>) on the same selector", floor=1)
     rep.assume("zipfile.ZipFile methods act on the already opened archive only")
